@@ -74,6 +74,8 @@ def case(draw, tier):
         c["missing"] = draw(st.sampled_from([None, None, 0]))
     if op == "merge":
         c["reverse"] = draw(st.booleans())
+        # the second table's fields: the same, permuted, a subset, or with a field the first table lacks
+        c["hdr2"] = draw(st.sampled_from([None, None, ["j", "k", "w", "id"], ["k", "j", "id"], ["id", "v", "j", "k", "w"]]))
     if op == "valuecounts":
         c["key"] = draw(st.sampled_from(["k", ("k", "j")]))
         c["vc_missing"] = draw(st.sampled_from([None, None, "M", 0]))   # what a short row's absent cell counts as
@@ -285,8 +287,16 @@ def _check(case, ctx):
                 mkw = {"reverse": True} if case.get("reverse") else {}
                 if case["buffersize"] is not None:
                     mkw["buffersize"] = case["buffersize"]
+                U = list(H)
+                if case.get("hdr2"):
+                    h2 = case["hdr2"]
+                    t2 = [list(h2)] + [[r[H.index(f)] if f in H else r[2] for f in h2] for r in t2[1:]]
+                    U = list(H) + [f for f in h2 if f not in H]
+                    ctx.label("merge:headers-differ")
                 got = _rows2(etl.merge(src, codec.snapshot(t2), key=key, missing=missing, **mkw))
-                allrows = [tbl[0]] + [list(r) for r in tbl[1:]] + [list(r) for r in t2[1:]]
+                # the tables are brought to the union of their fields (first table's fields first), absent cells = `missing`
+                allrows = [U] + [list(r) + [missing] * (len(U) - len(H)) for r in tbl[1:]] + \
+                          [[r[list(t2[0]).index(f)] if f in t2[0] else missing for f in U] for r in t2[1:]]
                 groups = R.ref_groups(allrows, key)
                 if case.get("reverse"):
                     groups = groups[::-1]   # descending key order; each group still holds all rows of its key
@@ -295,9 +305,10 @@ def _check(case, ctx):
                 missing = None
             else:
                 got = _rows2(etl.mergeduplicates(src, key, missing=missing, **kw))
+            U = U if op == "merge" else list(H)
             knames = [key] if isinstance(key, str) else list(key)
-            vidx = [i for i, f in enumerate(H) if f not in knames]
-            exp = [tuple(knames) + tuple(H[i] for i in vidx)]
+            vidx = [i for i, f in enumerate(U) if f not in knames]
+            exp = [tuple(knames) + tuple(U[i] for i in vidx)]
             for k, g in groups:
                 row = list(_keycols(key, k))
                 for i in vidx:
